@@ -23,6 +23,8 @@
 #include <stdio.h>
 #include <stdlib.h>
 #include <string.h>
+#include <sys/socket.h>
+#include <netinet/in.h>
 #include <sys/stat.h>
 #include <sys/syscall.h>
 #include <sys/types.h>
@@ -438,6 +440,42 @@ int renameat(int ad, const char *a, int bd, const char *b) {
         return r;
     }
     return real_renameat(ad, a, bd, b);
+}
+
+/* ---- bind observation: FSFAULT_BINDLOG=<file> gets one line "<pid> <port> <rc> <errno>" per bind() of
+ * an AF_INET socket in a `monorail` process, so that the controller can know that a contender has
+ * made (and lost) its attempt on the lock port before it lets the holder go. ---- */
+static int (*real_bind)(int, const struct sockaddr *, socklen_t);
+static int is_monorail = -1;
+int bind(int fd, const struct sockaddr *addr, socklen_t len) {
+    if (!real_bind) real_bind = dlsym(RTLD_NEXT, "bind");
+    int rc = real_bind(fd, addr, len);
+    int e = errno;
+    const char *lg = getenv("FSFAULT_BINDLOG");
+    if (lg && *lg && addr && addr->sa_family == AF_INET) {
+        if (is_monorail < 0) {
+            char comm[64] = {0};
+            if (!real_open) resolve_syms();
+            int cfd = real_open("/proc/self/comm", O_RDONLY);
+            if (cfd >= 0) {
+                ssize_t n = read(cfd, comm, sizeof(comm) - 1);
+                if (n > 0 && comm[n - 1] == '\n') comm[n - 1] = 0;
+                real_close(cfd);
+            }
+            is_monorail = strcmp(comm, "monorail") == 0;
+        }
+        if (is_monorail) {
+            int lfd = real_open(lg, O_WRONLY | O_CREAT | O_APPEND, 0644);
+            if (lfd >= 0) {
+                char line[128];
+                int n = snprintf(line, sizeof(line), "%d %d %d %d\n", (int)getpid(), (int)ntohs(((const struct sockaddr_in *)addr)->sin_port), rc, rc ? e : 0);
+                if (n > 0) real_write(lfd, line, (size_t)n);
+                real_close(lfd);
+            }
+        }
+    }
+    errno = e;
+    return rc;
 }
 
 /* ---- randomness seam ---- */
